@@ -47,6 +47,10 @@ QUAD.update({'quadL3': _Q(3), 'quadL5': _Q(5)})      # 64 and 1024 cells: struct
 MAG_GRIDS = {'m567': [5.0, 6.0, 7.0], 'm495': [4.95, 5.05, 5.15, 5.25, 5.35], 'm5': [5.0]}
 
 
+SMALL_GRIDS = list(MAG_GRIDS)
+MAG_GRIDS['m41'] = [round(4.0 + 0.1 * k, 1) for k in range(21)]          # 4.0 .. 6.0: used by the single-precision catalogs only
+
+
 def mags_for(grid):
     e = MAG_GRIDS[grid]
     inner = e[1] if len(e) > 1 else e[0]
@@ -100,8 +104,13 @@ def cases(tier, seed):
         for n in ns:
             for bad in ('none', 'first', 'last'):
                 yield dict(kind='large', region=rname, n=n, bad=bad)
+    # catalogs stored in single precision
+    for rname in ('cart2x2', 'cart6x5', 'quadL1'):
+        for grid in ('m495', 'm567', 'm41'):
+            for rep_ in (1, 3):
+                yield dict(kind='f32', region=rname, grid=grid, rep=rep_)
     for rname in [r for r in cart_regions() if r != 'cart6x5'] + SMALL_QUAD:
-        for grid in MAG_GRIDS:
+        for grid in SMALL_GRIDS:
             for bound in (True, False):
                 for size in range(0, mx + 1):
                     if rname == 'cart5x2gap' and size > 2:
@@ -310,6 +319,30 @@ def judge_catalog(rname, grid, bound, letters, pos, mags, edges, failures, hsh, 
                      f'gridded on the same cells stored in reverse order, then catalog.region = this region: spatial {g_sp.tolist()} expected {want_sp.tolist()}; space-magnitude {g_sm.tolist()} expected {want.tolist()}')
         except Exception as e:
             fail('spatial_counts', f'{type(e).__name__}-after-rebinding', f'{type(e).__name__}: {e}')
+    # H. history: an EXPLICIT magnitude grid is used once on a catalog whose region carries its own grid; afterwards the
+    #    argument-free calls must still use the region's grid (and the caller's region must still carry it)
+    if hist and bound and all_in and len(evs) > 0:
+        try:
+            hreg = build_region(rname, edges)
+            hc = fixtures.catalog(evs, region=hreg)
+            other = numpy.array([edges[0] - 1.0, edges[0] + 0.5, edges[0] + 2.0, edges[0] + 3.5])
+            hc.magnitude_counts(mag_bins=other)
+            evals += 1
+            after = [float(x) for x in numpy.asarray(hreg.magnitudes)]
+            if after != [float(x) for x in edges]:
+                fail('magnitude_counts', 'callers-region-magnitudes-replaced-by-the-explicit-grid', f'region.magnitudes was {edges}, after magnitude_counts(mag_bins={other.tolist()}) it is {after}')
+            else:
+                h_mc = numpy.asarray(hc.magnitude_counts(), dtype=float)
+                evals += 1
+                if h_mc.shape != want_mag.shape or not numpy.array_equal(h_mc, want_mag):
+                    fail('magnitude_counts', 'region-grid-not-used-after-a-call-with-an-explicit-grid', f'got {h_mc.tolist()}, expected {want_mag.tolist()}')
+                if all_mag:
+                    h_sm = numpy.asarray(hc.spatial_magnitude_counts(), dtype=float)
+                    evals += 1
+                    if h_sm.shape != want.shape or not numpy.array_equal(h_sm, want):
+                        fail('spatial_magnitude_counts', 'region-grid-not-used-after-a-call-with-an-explicit-grid', f'got shape {h_sm.shape}, expected {want.shape}: {want.tolist()}')
+        except Exception as e:
+            fail('magnitude_counts', f'{type(e).__name__}-after-a-call-with-an-explicit-grid', f'{type(e).__name__}: {e}')
     # F. marginal identities
     if sm is not None and all_in and all_mag:
         if sm.sum() != len(evs):
@@ -414,10 +447,67 @@ def run_large(case, failures, hsh):
     return evals
 
 
+DTYPE32 = numpy.dtype([('id', 'S256'), ('origin_time', '<i8'), ('latitude', '<f4'), ('longitude', '<f4'), ('depth', '<f4'), ('magnitude', '<f4')])
+
+
+def run_f32(case, failures, hsh):
+    """Catalogs stored in SINGLE precision (structured array with '<f4' columns). Only the clauses that do not depend on which
+    side of an edge a single-precision value falls are judged: the histogram against the equivalent range filters, the total,
+    and the marginal identities. Magnitudes: every edge and every mid-bin value (as float32), all at cell centres."""
+    from csep.core.catalogs import CSEPCatalog
+    rname, grid = case['region'], case['grid']
+    edges = MAG_GRIDS[grid]
+    quad = not rname.startswith('cart')
+    evals = 0
+    if quad:
+        bs = [rq.bounds(k) for k in QUAD[rname]]
+        centres = [((b[0] + b[2]) / 2, (b[1] + b[3]) / 2) for b in bs]
+    else:
+        reg0 = cart_regions()[rname]
+        centres = [(x + DH / 2, y + DH / 2) for i, (x, y) in enumerate(reg0['cells']) if (reg0['flags'] is None or reg0['flags'][i] == 1)]
+    mvals = list(edges) + [e + (edges[1] - edges[0]) / 2 if len(edges) > 1 else e + 0.3 for e in edges] + [edges[-1] + 2.0]
+    for bound in (True, False):
+        reg = build_region(rname, edges if bound else None)
+        kw = {} if bound else dict(mag_bins=numpy.array(edges))
+        rows = [(b'f%d' % i, 1262304000000 + i, centres[i % len(centres)][1], centres[i % len(centres)][0], 10.0, m) for i, m in enumerate(mvals * case['rep'])]
+        data = numpy.array(rows, dtype=DTYPE32)
+        rep = dict(case)
+        cls = ('quadtree' if quad else 'cartesian') + ',single-precision-catalog'
+
+        def fail(api, what, detail):
+            failures.append(Fail(f'CSEPCatalog.{api}|{what}|{cls}', f'{detail} | region={rname} grid={grid} bound={bound} magnitudes(float32)={[float(x) for x in data["magnitude"][:12]]}', rep))
+        try:
+            mc = numpy.asarray(CSEPCatalog(data=data.copy(), region=reg).magnitude_counts(**kw), dtype=float)
+            sm = numpy.asarray(CSEPCatalog(data=data.copy(), region=reg).spatial_magnitude_counts(**kw), dtype=float)
+            sp = numpy.asarray(CSEPCatalog(data=data.copy(), region=reg).spatial_counts(), dtype=float)
+            evals += 3
+            hsh.update(mc.tobytes() + sm.tobytes())
+            nb = len(edges)
+            for k in range(nb):
+                st = [f'magnitude >= {edges[k]!r}'] + ([f'magnitude < {edges[k + 1]!r}'] if k + 1 < nb else [])
+                kept = CSEPCatalog(data=data.copy(), region=reg).filter(st, in_place=False).event_count
+                evals += 1
+                if kept != int(mc[k]):
+                    fail('magnitude_counts', 'differs-from-equivalent-range-filter', f'bin {k}: count {mc[k]}, filter {st} keeps {kept}')
+                    break
+            if sm.sum() != len(rows):
+                fail('spatial_magnitude_counts', 'total-differs-from-number-of-events', f'total {sm.sum()} for {len(rows)} events')
+            if not numpy.array_equal(sm.sum(axis=0), mc):
+                fail('spatial_magnitude_counts', 'column-sums-differ-from-magnitude-counts', f'{sm.sum(axis=0).tolist()} vs {mc.tolist()}')
+            if not numpy.array_equal(sm.sum(axis=1), sp):
+                fail('spatial_magnitude_counts', 'row-sums-differ-from-spatial-counts', f'{sm.sum(axis=1).tolist()} vs {sp.tolist()}')
+        except Exception as e:
+            fail('magnitude_counts', type(e).__name__, f'{type(e).__name__}: {e}')
+    return evals
+
+
 def run_case(case):
     failures = []
     hsh = hashlib.sha1()
     evals = states = nontriv = 0
+    if case['kind'] == 'f32':
+        evals = run_f32(case, failures, hsh)
+        return result(evals=evals, states=2, transitions=evals, nontrivial=2, failures=failures, digest=hsh.hexdigest(), sample=dict(case))
     if case['kind'] == 'large':
         evals = run_large(case, failures, hsh)
         seen, uniq = set(), []
